@@ -5,5 +5,5 @@ CONSTANTS
 INIT Init
 NEXT Next
 VIEW View
-INVARIANTS NoPanic TypeOK LentIffInCall Lazy RowsPrefix RowsFinal SemFinal
+INVARIANTS NoPanic TypeOK LentIffInCall Lazy RowsPrefix RowsFinal SemFinal Report
 CHECK_DEADLOCK FALSE
